@@ -268,13 +268,14 @@ class Gen:
                 n = rng.choice([0, 1, 2, 3, 4, 7, 13]) if not rng.chance(1, 12) else rng.below(40)
                 out = []
                 for _ in range(n):
-                    alg = rng.choice([-7, -8, -7, -8, -257, -35, 0, 1, -9, 2**31 - 1, -(2**31)])
+                    # COSE algorithm identifiers: the two known ones, every registered neighbour, range ends
+                    alg = rng.choice([-7, -8, -7, -8, -257, -35, 0, 1, -9, 2**31 - 1, -(2**31)]) if rng.chance(2, 3) else rng.choice(list(range(-70, 8)) + [-65535, -259, -258, -256, 256])
                     t = rng.choice(["public-key", "public-key", "public-key", "private-key", "", "x" * 32])
                     pr = [("alg", alg), ("type", t)]
                     out.append(cbor.M(pr if rng.chance(2, 3) else pr[::-1]))
                 return out
             if name == "ctap2::AttestationFormatsPreference":
-                n = rng.below(6)
+                n = rng.below(6) if not rng.chance(1, 6) else 6 + rng.below(6)
                 return [rng.choice(["packed", "none", "tpm", "android-key", "Packed", ""]) for _ in range(n)]
             if name == "ext::EcdhEsHkdf256PublicKey":
                 return cbor.M([(1, 2), (3, -25), (-1, 1), (-2, rng.bytes(rng.choice([32, 32, 32, 0, 31]))), (-3, rng.bytes(rng.choice([32, 32, 32, 0, 31])))])
@@ -282,6 +283,23 @@ class Gen:
 
     def optional_wire_labels(self, name):
         return [f["label"] for f in self.s[name]["fields"] if f["opt"]]
+
+
+def utf8_reps():
+    """one representative character of every UTF-8 lead byte C2..F4 plus the first / last code points of special ranges"""
+    reps = []
+    for lead in range(0xC2, 0xF5):
+        if lead < 0xE0:
+            reps.append(bytes([lead, 0x80 + (lead % 0x40)]).decode())
+        elif lead < 0xF0:
+            second = 0xA0 if lead == 0xE0 else (0x9F if lead == 0xED else 0x80 + (lead % 0x20))
+            reps.append(bytes([lead, second, 0xBF]).decode())
+        else:
+            second = 0x90 if lead == 0xF0 else (0x8F if lead == 0xF4 else 0xA0)
+            reps.append(bytes([lead, second, 0x80, 0xBF]).decode())
+    reps += ["\u007f", "\u0080", "\u07ff", "\u0800", "\ud7ff", "\ue000", "\uf000", "\uf8ff", "\ufeff", "\uff01", "\ufffd", "\uffff",
+             "\U00010000", "\U000e0001", "\U000e0020", "\U000e0065", "\U000e007e", "\U000e007f", "\U000f0000", "\U0010ffff"]
+    return reps
 
 
 def subsets_or_sample(labels, rng, limit):
